@@ -43,8 +43,8 @@ def c03(tier):
         # register traces under forced collections against the collector-free instruction-level model
         # (spec/Machine.tla): a reclaimed live object shows at the first instruction that loads it
         import mach
-        gcov.update(mach.run(verdict, wd, [('alloc', 8 if q else 300, ['gc=1']), ('cont', 8 if q else 300, ['gc=3']),
-                                           ('scope3', 6 if q else 300, ['gc=2'])], vlib.seed()))
+        gcov.update(mach.run(verdict, wd, [('alloc', 8 if q else 150, ['gc=1']), ('cont', 8 if q else 150, ['gc=3']),
+                                           ('scope3', 6 if q else 150, ['gc=2'])], vlib.seed()))
 
     def extra(sessions, ends):
         runs = 0
